@@ -180,6 +180,37 @@ func init() {
 			u.note("LabelSet.Fingerprint: uninterpreted function of the label-set object (label sets immutable once stored)")
 			return intV(t)
 		},
+		"maps.Clone": func(fr *Frame, st *State, a []Val, in ssa.Instruction) Val {
+			// maps.Clone(m): nil for a nil map, otherwise a new map object with the same keys and values
+			u := fr.u
+			ci := in.(ssa.CallInstruction)
+			mt, ok := ci.Common().Args[0].Type().Underlying().(*types.Map)
+			if !ok {
+				u.unsup("maps.Clone on non-map")
+			}
+			dom, val, _, _ := u.mapHeaps(mt)
+			src := a[0].T
+			r := u.newRef(st)
+			u.heapStoreAt(st, dom, r, sel(u.heapCur(st, dom), src))
+			u.heapStoreAt(st, val, r, sel(u.heapCur(st, val), src))
+			return Val{T: ite(eq(src, "0"), "0", r), S: "Int", Ty: ci.Common().Args[0].Type()}
+		},
+		"time.Date": func(fr *Frame, st *State, a []Val, in ssa.Instruction) Val {
+			// time.Date(y, m, d, h, mi, s, ns, loc): an uninterpreted instant, carrying loc (normalisation of
+			// out-of-range fields - day 0, month 13 - is inside the trusted calendar)
+			u := fr.u
+			f := u.enc.declFun("time_date", []string{"Int", "Int", "Int", "Int", "Int", "Int", "Int", "Int"}, "Int")
+			var ts []string
+			for i := 0; i < 8; i++ {
+				ts = append(ts, a[i].T)
+			}
+			u.note("time.Date is an uninterpreted function of its arguments (package time trusted)")
+			r := zoned(intV(app(f, ts...)), a[7].T)
+			if v, ok := in.(ssa.Value); ok {
+				r.Ty = v.Type()
+			}
+			return r
+		},
 		"maps.Copy": func(fr *Frame, st *State, a []Val, in ssa.Instruction) Val {
 			// maps.Copy(dst, src): dst' = dst overridden by src
 			u := fr.u
